@@ -1044,3 +1044,128 @@ c02_sect_traversal_1 = _mksv('C02', 'c02_sect_traversal_1', 'check', 1, ('quick'
 c02_sect_traversal_2 = _mksv('C02', 'c02_sect_traversal_2', 'check', 2, ('thorough',))
 c03_sect_headers_1 = _mksv('C03', 'c03_sect_headers_1', 'headers', 1, ('quick', 'thorough'))
 c03_sect_headers_2 = _mksv('C03', 'c03_sect_headers_2', 'headers', 2, ('thorough',))
+
+
+# --------------------------------------------------------------------------
+# C16 -> callVariant (C01 alternative-splicing clause): rMATS record -> GVF record -> pool conversion -> peptides
+# --------------------------------------------------------------------------
+class _FakePointer:
+    def __init__(self, records):
+        self.records = records
+
+    def load(self):
+        return list(self.records)
+
+
+class _SpliceCase:
+    """gene on the + strand: exon1 | intron1 (12 nt) | exon2 (15 nt) | intron2 (12 nt) | exon3; annotated isoform has all three
+    exons.  kind 'SE': exon 2 skipped (in-frame deletion); kind 'RI': intron 1 retained (in-frame insertion)."""
+    P1, P2, P3 = 'MASTEDLV', 'KAADE', 'GLVSTKGGHLRVVK'
+
+    def __init__(self, kind):
+        import sys
+        from moPepGen import dna, svgraph
+        from moPepGen.parser.RMATSParser.RIRecord import RIRecord
+        from moPepGen.parser.RMATSParser.SERecord import SERecord
+        from moPepGen.seqvar.VariantRecordPoolOnDisk import VariantRecordPoolOnDisk
+        from mpgverif.harness.annobuild import anno_one_gene
+        import moPepGen.cli.call_variant_peptide  # noqa: F401
+        cvp = sys.modules['moPepGen.cli.call_variant_peptide']
+        c1, c2, c3 = (''.join(CODON[a] for a in p) for p in (self.P1, self.P2, self.P3))
+        e1, i1, e2, i2, e3 = UTR5 + c1, 'GTAAAAAAAAAG', c2, 'GTTTTTTTTCAG', c3 + 'TAA' + UTR3
+        gene = e1 + i1 + e2 + i2 + e3
+        b = [0, len(e1), len(e1 + i1), len(e1 + i1 + e2), len(e1 + i1 + e2 + i2), len(gene)]
+        exons = [(b[0], b[1]), (b[2], b[3]), (b[4], b[5])]
+        cds_end = b[4] + len(c3)
+        cds = [(len(UTR5), b[1]), (b[2], b[3]), (b[4], cds_end)]
+        anno = anno_one_gene(0, len(gene), 1, exons, cds=cds, cds_frames=[0, (3 - len(c1) % 3) % 3, (3 - len(c1 + c2) % 3) % 3],
+                             three_utr=[(cds_end + 3, len(gene))])
+        genome = dna.DNASeqDict({'chr1': dna.DNASeqRecord(Seq(gene), id='chr1', name='chr1', description='chr1')})
+        tail = dict(ijc_sample_2=0, sjc_sample_2=0, inc_form_len=1, skip_form_len=1, pvalue=0.5, fdr=0.5)
+        if kind == 'SE':
+            rec = SERecord('G1', 'S', 'chr1', exons[1][0], exons[1][1], exons[0][0], exons[0][1], exons[2][0], exons[2][1],
+                           5, 5, **tail)
+            alt_tx = e1 + e3
+        else:
+            rec = RIRecord('G1', 'S', 'chr1', exons[0][0], exons[1][1], exons[0][0], exons[0][1], exons[1][0], exons[1][1],
+                           5, 5, **tail)
+            alt_tx = e1 + i1 + e2 + e3
+        gvf = rec.convert_to_variant_records(anno, genome, 1, 1)
+        if len(gvf) != 1:
+            raise RuntimeError(f'expected one GVF record, got {len(gvf)}')
+        self.record_type = gvf[0].type
+        pool = VariantRecordPoolOnDisk(pointers={'T1': [_FakePointer(gvf)]}, gvf_files=[], anno=anno, genome=genome)
+        series = pool['T1']
+        tx_seqs = {'T1': anno.transcripts['T1'].get_transcript_sequence(genome['chr1'])}
+        gene_seqs = {'G1': anno.genes['G1'].get_gene_sequence(genome['chr1'])}
+        ref_prot = self.P1 + self.P2 + self.P3
+        self.ref = {q for q, k in _digest(ref_prot)}
+        self.deny = {Seq(q) for q in self.ref}
+        real = svgraph.PeptideVariantGraph.call_variant_peptides
+
+        def capture(pg, **kwargs):
+            raise _Captured(pg, kwargs)
+
+        p = CleavageParams(enzyme='trypsin', miscleavage=2, min_length=1, max_length=100, min_mw=0.)
+        svgraph.PeptideVariantGraph.call_variant_peptides = capture
+        try:
+            cvp.call_peptide_main(tx_id='T1', tx_variants=series.transcriptional, variant_pool=pool, ref=_Ref(anno, genome),
+                                  tx_seqs=tx_seqs, gene_seqs=gene_seqs, cleavage_params=p, max_adjacent_as_mnv=2,
+                                  truncate_sec=False, w2f=False, denylist=self.deny, save_graph=False,
+                                  coding_novel_orf=False)
+            raise RuntimeError('call_variant_peptides was not reached')
+        except _Captured as c:
+            _order_sets(c.pgraph)
+            self.graph, self.kwargs = c.pgraph, c.kwargs
+        finally:
+            svgraph.PeptideVariantGraph.call_variant_peptides = real
+        self.alt_prot = _translate(alt_tx[len(UTR5):])
+        self.cands = {(q, k) for q, k in _digest(self.alt_prot) if q and q not in self.ref}
+
+    def run(self, misc, lo, hi):
+        from crosshair.tracers import NoTracing
+        with NoTracing():
+            pg, kwargs = copy.deepcopy((self.graph, self.kwargs))
+        pg.cleavage_params = CleavageParams(enzyme='trypsin', miscleavage=misc, min_length=lo, max_length=hi, min_mw=0.)
+        return {str(s) for s in pg.call_variant_peptides(**kwargs)}
+
+    def check(self, misc, lo, hi):
+        got = self.run(misc, lo, hi)
+        want = {q for q, k in self.cands if k <= misc and lo <= len(q) <= hi}
+        if want - got:
+            return -1
+        if got - want:
+            return -2
+        return OK
+
+
+CASE_SE = _Lazy(lambda: _SpliceCase('SE'))
+CASE_RI = _Lazy(lambda: _SpliceCase('RI'))
+ENC_SP = ['moPepGen.parser.RMATSParser.SERecord / RIRecord.convert_to_variant_records', 'moPepGen.seqvar.'
+          'VariantRecordPoolOnDisk.VariantRecordPoolOnDisk.__getitem__ (to_transcript_variant, shift_deletion_up)',
+          'moPepGen.cli.call_variant_peptide.call_peptide_main (graph construction: concrete, before the symbolic run)',
+          'moPepGen.svgraph.PeptideVariantGraph.PeptideVariantGraph.call_variant_peptides', 'moPepGen.svgraph.VariantPeptideDict.*']
+_BSP = ('ONE concrete 3-exon gene (+ strand); rMATS %s event converted by the real parser, the real pool conversion and the '
+        'real call_peptide_main; canonical pool = digest of the annotated protein; miscleavage = %s, min_length and max_length '
+        'UNBOUNDED symbolic integers')
+
+
+def _mksp(name, case, what, misc, tiers):
+    def f(lo: int, hi: int) -> int:
+        """
+        pre: 1 <= lo
+        post: _ >= 0
+        """
+        return case.check(misc, lo, hi)
+    f.__name__ = f.__qualname__ = name
+    return cond('C16', bounds=_BSP % (what, misc), encodes=ENC_SP, stubs=STUBS + ['GVF pointers -> in-memory records'],
+                codes={-1: 'a non-canonical digestion product of the alternative isoform (exon skipped / intron retained) is '
+                           'not reported', -2: 'a reported peptide is not such a digestion product'},
+                timeout=900, tiers=tiers)(f)
+
+
+c16_se_peptides_0 = _mksp('c16_se_peptides_0', CASE_SE, 'SE (exon 2 skipped)', 0, ('quick', 'thorough'))
+c16_se_peptides_1 = _mksp('c16_se_peptides_1', CASE_SE, 'SE (exon 2 skipped)', 1, ('quick', 'thorough'))
+c16_ri_peptides_0 = _mksp('c16_ri_peptides_0', CASE_RI, 'RI (intron 1 retained)', 0, ('quick', 'thorough'))
+c16_ri_peptides_1 = _mksp('c16_ri_peptides_1', CASE_RI, 'RI (intron 1 retained)', 1, ('quick', 'thorough'))
+c16_ri_peptides_2 = _mksp('c16_ri_peptides_2', CASE_RI, 'RI (intron 1 retained)', 2, ('thorough',))
